@@ -383,7 +383,7 @@ def assemble_item(item):
         return None
     sys.settrace(tracer)
     try:
-        r = impl.assemble(files, fs=fs, reset=False)
+        r = impl.assemble(files, fs=fs, reset=False, watchdog=120)     # tracing is slow: the real watchdog must not fire instead of the injection
     finally:
         sys.settrace(None)
     r["calls"] = count[0]
@@ -403,9 +403,14 @@ def run_history(job):
             # count the calls of this assembly first (a plain valid/invalid assembly of the same sources), then interrupt the second one
             c = assemble_item({"files": it["files"], "fs": it.get("fs"), "inject": {"at": -1, "kind": "count"}})
             st = state_now()
-            log.append({"kind": "count-run", "outcome": c["outcome"], "state": st})
+            ce = {"kind": "count-run", "outcome": c["outcome"], "state": st}
+            if c["outcome"] == "hang" and st != [0, 0, 0]:        # only the real watchdog can cut a counting run (asynchronously)
+                ce["async_dirty"] = True
+                impl.reset_global_state()
+            log.append(ce)
             n = max(1, c.get("calls", 1))
             it["inject"] = {"kind": item["inject"]["kind"], "at": 1 + int(item["inject"]["frac"] * (n - 1))}
+        r = None
         try:
             r = assemble_item(it)
             oc = r["outcome"]
@@ -413,7 +418,9 @@ def run_history(job):
             oc = "escaped:" + type(ex).__name__
         st = state_now()
         entry = {"kind": item["kind"], "outcome": oc, "state": st, "leftover": leftover_now()}
-        if item.get("watchdog") and st != [0, 0, 0]:
+        # the REAL watchdog (SIGALRM) cut this assembly, on purpose or because the machine is loaded: an injected Hang has no pdpy11 frame
+        real_alarm = item.get("watchdog") or (oc == "hang" and isinstance(r, dict) and (r.get("crash") or {}).get("frame") not in (None, "?"))
+        if real_alarm and st != [0, 0, 0]:
             # an asynchronous SIGALRM landed inside __enter__/__exit__: outside the model and the property; noted and repaired
             entry["async_dirty"] = True
             impl.reset_global_state()
@@ -641,6 +648,14 @@ def history_part(rep, rng, nprobes, nhist_per_probe, maxlen, seeds):
         if "error" in res:
             rep.disagree("history worker failed", {"probe": job["probe"], "history_kinds": kinds}, impl=res)
             continue
+        if res["probe_result"].get("outcome") == "hang":
+            # the probe itself was cut by the watchdog (loaded machine): run this history once more, alone
+            rep.count("probe-cut-by-watchdog-rerun")
+            again = _pool_one({"history": job["history"], "probe": job["probe"]})
+            if again is None or again["probe_result"].get("outcome") == "hang":
+                rep.disagree("the probe was cut by the 10 s watchdog twice (machine too loaded?)", {"probe": job["probe"], "history_kinds": kinds})
+                continue
+            res = again
         rep.traces_validated += 1
         if any(k != "valid" for k in kinds):
             rep.nontrivial(("history", tuple(h["kind"] for h in job["history"]), probes[job["pi"]]["what"], job["pi"]))
